@@ -69,7 +69,7 @@ fn pairs(s: &str) -> Vec<(String, String)> {
         .collect()
 }
 
-fn build_entry(f: &[&str], pw: Option<&str>) -> io::Result<NormalEntry> {
+fn build_entry(f: &[&str], pw: Option<&str>, with_extras: bool) -> io::Result<NormalEntry> {
     let name = utf8(f[2]);
     let data = unhex(f[3]).expect("data hex");
     let mut b = match f[1] {
@@ -98,10 +98,42 @@ fn build_entry(f: &[&str], pw: Option<&str>) -> io::Result<NormalEntry> {
     for (n, v) in pairs(f[11]) {
         b.add_xattr(ExtendedAttribute::new(utf8(&n), unhex(&v).expect("hex")));
     }
-    for (t, d) in pairs(f[12]) {
-        b.add_extra_chunk(RawChunk::from_data(ty4(&t), unhex(&d).expect("hex")));
+    if with_extras {
+        for (t, d) in pairs(f[12]) {
+            b.add_extra_chunk(RawChunk::from_data(ty4(&t), unhex(&d).expect("hex")));
+        }
     }
     b.build()
+}
+
+/// The entry `e` with the extra chunks spliced in behind its first chunk (FHED / SHED: the place the library's own
+/// writers put them) at the level of bytes, the way a foreign writer would produce them — not through
+/// `add_extra_chunk` of the builders, so that what the commands under test receive does not depend on what those
+/// builders do with the chunks (seeded C13-8: a builder that drops a repeated chunk).  Added to `a` as raw entries.
+fn add_with_raw_extras(a: &mut Archive<Vec<u8>>, e: impl Entry, extras: &[(String, String)]) -> io::Result<()> {
+    let mut t = Archive::write_header(Vec::new())?;
+    t.add_entry(e)?;
+    let tmp = t.finalize()?;
+    let body_at = 8 + 12 + 8; // signature, AHED chunk
+    let first_len = u32::from_be_bytes([tmp[body_at], tmp[body_at + 1], tmp[body_at + 2], tmp[body_at + 3]]) as usize;
+    let cut = body_at + 12 + first_len;
+    let mut out = tmp[..cut].to_vec();
+    for (ty, d) in extras {
+        let (ty, d) = (unhex(ty).expect("hex"), unhex(d).expect("hex"));
+        out.extend_from_slice(&(d.len() as u32).to_be_bytes());
+        out.extend_from_slice(&ty);
+        out.extend_from_slice(&d);
+        let mut h = crc32fast::Hasher::new();
+        h.update(&ty);
+        h.update(&d);
+        out.extend_from_slice(&h.finalize().to_be_bytes());
+    }
+    out.extend_from_slice(&tmp[cut..]);
+    let mut r = Archive::read_header(&out[..])?;
+    for raw in r.raw_entries() {
+        a.add_entry(raw?)?;
+    }
+    Ok(())
 }
 
 fn main() -> io::Result<()> {
@@ -114,28 +146,31 @@ fn main() -> io::Result<()> {
     let spec = std::fs::read_to_string(&args[0])?;
     let mut a = Archive::write_header(Vec::new())?;
     let mut solid: Option<SolidEntryBuilder> = None;
+    let mut solid_extras: Vec<(String, String)> = Vec::new();
     for line in spec.lines() {
         if line.is_empty() || line.starts_with('#') {
             continue;
         }
         let f: Vec<&str> = line.split('\t').collect();
         match f[0] {
-            "solid" => solid = Some(SolidEntryBuilder::new(options(f[1], f[2], f[3], pw.as_deref()))?),
-            "solidextra" => solid.as_mut().expect("open solid").add_extra_chunk(RawChunk::from_data(ty4(f[1]), unhex(f[2]).expect("hex"))),
+            "solid" => {
+                solid = Some(SolidEntryBuilder::new(options(f[1], f[2], f[3], pw.as_deref()))?);
+                solid_extras.clear();
+            }
+            "solidextra" => solid_extras.push((f[1].to_string(), f[2].to_string())),
             "endsolid" => {
-                a.add_entry(solid.take().expect("open solid").build()?)?;
+                let se = solid.take().expect("open solid").build()?;
+                add_with_raw_extras(&mut a, se, &solid_extras)?;
             }
-            "entry" => {
-                let e = build_entry(&f, pw.as_deref())?;
-                match solid.as_mut() {
-                    Some(s) => {
-                        s.add_entry(e)?;
-                    }
-                    None => {
-                        a.add_entry(e)?;
-                    }
+            "entry" => match solid.as_mut() {
+                Some(s) => {
+                    s.add_entry(build_entry(&f, pw.as_deref(), true)?)?;
                 }
-            }
+                None => {
+                    let e = build_entry(&f, pw.as_deref(), false)?;
+                    add_with_raw_extras(&mut a, e, &pairs(f[12]))?;
+                }
+            },
             other => panic!("unknown spec line {other}"),
         }
     }
